@@ -468,6 +468,9 @@ def name_validator_rule(ctx, prop, rid):
         itn.reset([])
         if itn.call_function(ixt, [t], {}, None, ixt.node) is not True:
             rej.append(t)
+    # ... and the validator is applied to every element of the tree, whatever its kind and depth (whole-tree evaluation)
+    from .c02 import tree_validation_obligations
+    tree_validation_obligations(ctx, r, rid)
     r.check(not rej, "is_xml_tag[ordinary valid names]", "ordinary valid names (letters, digits, '.', '-', '_', accents, combining marks) are accepted", ixt.loc(), why_fail=f"rejected {rej}")
     # the element validator refuses every name the pattern rejects - also one made of individually allowed characters
     se = ctx.repo.cls("pyxform.survey_element:SurveyElement")
